@@ -1,13 +1,154 @@
-"""Checker self-validation: positive controls (every run / setup), mutant and silent corpora
-(thorough / development).  Filled in as the engines land."""
+"""Checker self-validation (DESIGN.md section 8).
+
+  ./vcheck selftest --controls          positive controls only (setup_cmd; fast)
+  ./vcheck selftest --mutants [ids..]   single-edit variants of /repo in scratch copies: the named
+                                        check must exit 1 and name the edited construct
+  ./vcheck selftest --silent [ids..]    behaviour-preserving variants: every listed check must exit 0
+  ./vcheck selftest --seeded [ids..]    patches kept under /verif/seeded/<id>/patch.diff
+
+Scratch copies are hard-link trees under tempfile.mkdtemp() and are removed in a finally."""
 from __future__ import annotations
+
+import json
+import os
+import shutil
+import subprocess
+import sys
+import tempfile
+import time
+from concurrent.futures import ThreadPoolExecutor
+from pathlib import Path
+
+from .core import REPO, VERIF
+
+
+def scratch_copy() -> Path:
+    d = Path(tempfile.mkdtemp(prefix="kverif-scratch-"))
+    for sub in ("src", "codegen"):
+        shutil.copytree(REPO / sub, d / sub, copy_function=os.link, ignore=shutil.ignore_patterns("__pycache__", "*.pyc"))
+    return d
+
+
+def edit(root: Path, rel: str, old: str, new: str, count: int = 1):
+    p = root / rel
+    text = p.read_text()
+    if text.count(old) < 1:
+        raise RuntimeError(f"selftest edit: pattern not found in {rel}: {old[:60]!r}")
+    if count and text.count(old) != count:
+        raise RuntimeError(f"selftest edit: pattern occurs {text.count(old)}x in {rel} (expected {count}): {old[:60]!r}")
+    p.unlink()  # break the hard link: never write through to /repo
+    p.write_text(text.replace(old, new))
+
+
+def run_check(root: Path, pid: str, tier="quick"):
+    env = dict(os.environ, KVERIF_REPO=str(root), KVERIF_CACHE=str(root / ".cache"), PYTHONDONTWRITEBYTECODE="1",
+               KVERIF_EVIDENCE=str(root / "evidence"), KVERIF_REPLAY=str(root / "replay"))
+    r = subprocess.run([str(VERIF / "vcheck"), pid, "--tier", tier], capture_output=True, text=True, env=env, cwd=str(VERIF))
+    return r.returncode, r.stdout + r.stderr
+
+
+def run_variant(v: dict, kind: str):
+    root = scratch_copy()
+    t0 = time.time()
+    try:
+        if "patch" in v:
+            r = subprocess.run(["git", "apply", "--directory", str(root), "--unsafe-paths", v["patch"]], capture_output=True, text=True,
+                               cwd=str(root))
+            if r.returncode != 0:
+                # git apply refuses to write through hard links only if paths are outside; fall back to patch(1)
+                r = subprocess.run(["patch", "-p1", "-d", str(root), "-i", v["patch"], "--force"], capture_output=True, text=True)
+                if r.returncode != 0:
+                    return {"id": v["id"], "ok": False, "why": f"patch does not apply: {r.stderr[:200]} {r.stdout[:200]}"}
+        for e in v.get("edits", []):
+            edit(root, *e)
+        out = {"id": v["id"], "results": {}, "ok": True, "why": ""}
+        for pid in v["checks"]:
+            rc, text = run_check(root, pid)
+            viol = [l for l in text.splitlines() if l.strip().startswith(pid + " ")]
+            out["results"][pid] = {"rc": rc, "violations": viol[:6]}
+            if kind == "probe":
+                if rc == 2:
+                    out["results"][pid]["violations"] = [l for l in text.splitlines() if "ANALYSIS-ERROR" in l][:2]
+                continue
+            if kind == "silent":
+                if rc != 0:
+                    out["ok"] = False
+                    out["why"] += f"{pid} exit {rc} on a behaviour-preserving variant: {(viol or text.splitlines()[-3:])[:2]}; "
+            else:
+                want = v.get("expect", {}).get(pid, "")
+                if rc != 1:
+                    out["ok"] = False
+                    out["why"] += f"{pid} exit {rc} (expected 1): {text.strip().splitlines()[-1][:200] if text.strip() else ''}; "
+                elif want and not any(want in l for l in text.splitlines()):
+                    out["ok"] = False
+                    out["why"] += f"{pid} fired but did not name {want!r}; "
+        out["wall_s"] = round(time.time() - t0, 1)
+        return out
+    except Exception as e:
+        return {"id": v["id"], "ok": False, "why": f"{type(e).__name__}: {e}"}
+    finally:
+        shutil.rmtree(root, ignore_errors=True)
+
+
+def load_seeded():
+    out = []
+    sd = VERIF / "seeded"
+    if sd.is_dir():
+        for d in sorted(sd.iterdir()):
+            meta = d / "meta.json"
+            if meta.exists() and (d / "patch.diff").exists():
+                m = json.loads(meta.read_text())
+                out.append({"id": d.name, "patch": str(d / "patch.diff"), "checks": m.get("detected_by") or [m["property"]],
+                            "expect": m.get("expect", {}), "meta": m})
+    return out
 
 
 def main(argv) -> int:
     from .controls import run_controls
-    missed = run_controls(verbose=True)
-    if missed:
+    from .corpus import MUTANTS, SILENT
+    mode = argv[0] if argv else "--controls"
+    ids = set(argv[1:])
+    if mode == "--controls":
+        missed = run_controls(verbose=True)
         for m in missed:
             print(f"ANALYSIS-ERROR control not detected: {m}")
+        return 2 if missed else 0
+    if mode == "--mutants":
+        todo, kind = [m for m in MUTANTS if not ids or m["id"] in ids], "mutant"
+    elif mode == "--silent":
+        todo, kind = [m for m in SILENT if not ids or m["id"] in ids], "silent"
+    elif mode == "--patch":
+        # evaluate one patch file against all (or the given) checks; prints what fires
+        from . import props as _props
+        v = {"id": Path(argv[1]).parent.name + "/" + Path(argv[1]).name, "patch": argv[1], "checks": list(argv[2:]) or list(_props.ALL)}
+        r = run_variant(v, "probe")
+        if "results" not in r:
+            print(r)
+            return 2
+        line = []
+        for pid, res in r["results"].items():
+            mark = {0: "pass", 1: "VIOLATION", 2: "ANALYSIS-ERROR"}.get(res["rc"], str(res["rc"]))
+            if res["rc"] == 0:
+                line.append(pid)
+                continue
+            first = next((l for l in res["violations"] if "[quick]" not in l), "")
+            print(f"{pid}: {mark} ({len([l for l in res['violations'] if '[quick]' not in l])}+) {first.strip()[:230]}")
+        print("pass: " + " ".join(line))
+        return 0
+    elif mode == "--seeded":
+        todo, kind = [m for m in load_seeded() if not ids or m["id"] in ids], "mutant"
+    else:
+        print(__doc__)
         return 2
-    return 0
+    jobs = int(os.environ.get("KVERIF_JOBS", "4"))
+    with ThreadPoolExecutor(jobs) as ex:
+        results = list(ex.map(lambda v: run_variant(v, kind), todo))
+    bad = 0
+    for r in results:
+        status = "ok" if r["ok"] else "FAIL"
+        print(f"{kind} {r['id']}: {status} {r.get('why', '')} {json.dumps({k: v['rc'] for k, v in r.get('results', {}).items()})} {r.get('wall_s', '')}s")
+        bad += 0 if r["ok"] else 1
+    print(f"{kind}s: {len(results) - bad}/{len(results)} as expected")
+    (VERIF / "selftest").mkdir(exist_ok=True)
+    (VERIF / "selftest" / f"last-{kind}.json").write_text(json.dumps(results, indent=1))
+    return 0 if not bad else 1
